@@ -171,7 +171,36 @@ def intNat : BVal → Option Nat
   | .int false n => some n
   | _ => none
 
-def isUtf8 (b : Bytes) : Bool := (String.fromUTF8? (ByteArray.mk b.toArray)).isSome
+def isCont (b : UInt8) : Bool := 0x80 ≤ b && b ≤ 0xBF
+
+/-- well-formed UTF-8 (RFC 3629: shortest form only, no surrogates, at most U+10FFFF) — what
+`str::from_utf8` accepts; fuel = remaining length -/
+def utf8Go : Nat → Bytes → Bool
+  | _, [] => true
+  | 0, _ :: _ => false
+  | fuel + 1, b0 :: t =>
+    if b0 < 0x80 then utf8Go fuel t
+    else if 0xC2 ≤ b0 && b0 ≤ 0xDF then
+      match t with
+      | b1 :: t' => isCont b1 && utf8Go fuel t'
+      | _ => false
+    else if 0xE0 ≤ b0 && b0 ≤ 0xEF then
+      match t with
+      | b1 :: b2 :: t' =>
+        (if b0 == 0xE0 then 0xA0 ≤ b1 && b1 ≤ 0xBF
+         else if b0 == 0xED then 0x80 ≤ b1 && b1 ≤ 0x9F
+         else isCont b1) && isCont b2 && utf8Go fuel t'
+      | _ => false
+    else if 0xF0 ≤ b0 && b0 ≤ 0xF4 then
+      match t with
+      | b1 :: b2 :: b3 :: t' =>
+        (if b0 == 0xF0 then 0x90 ≤ b1 && b1 ≤ 0xBF
+         else if b0 == 0xF4 then 0x80 ≤ b1 && b1 ≤ 0x8F
+         else isCont b1) && isCont b2 && isCont b3 && utf8Go fuel t'
+      | _ => false
+    else false
+
+def isUtf8 (b : Bytes) : Bool := utf8Go b.length b
 
 def typedOk (d : BDict) (key : String) (ok : BVal → Bool) : Bool :=
   match d.lookup (str key) with
